@@ -97,7 +97,8 @@ def corrupt(inst, rows: list, nb: int, rng: random.Random) -> tuple:
         r[j] += rng.choice([-2, -1, 1, 2])
     elif kind == "one-side":
         # keep exactly one side equal to a side of the item, make the other arbitrary
-        w, h = int(inst[r[0] - 1, 0]), int(inst[r[0] - 1, 1])
+        tid = r[0] if 1 <= r[0] <= inst.n_different_items else 1     # (an earlier corruption may have broken the id)
+        w, h = int(inst[tid - 1, 0]), int(inst[tid - 1, 1])
         if rng.random() < 0.5:
             r[4] = r[2] + h
             r[5] = r[3] + rng.randint(1, max(1, H))
